@@ -239,7 +239,7 @@ fn layout(b: &[u8]) -> Layout {
 }
 
 /// `body` is a record the real writer produced (so its layout is consistent)
-fn mutate(rng: &mut Rng, body: &[u8]) -> (Vec<u8>, &'static str) {
+pub(super) fn mutate(rng: &mut Rng, body: &[u8]) -> (Vec<u8>, &'static str) {
     let mut b = body.to_vec();
     let l = layout(body);
     match rng.below(26) {
@@ -486,7 +486,7 @@ fn mutate(rng: &mut Rng, body: &[u8]) -> (Vec<u8>, &'static str) {
 
 /// a long (> 65535 ops) written record with its CG field moved to the front / the placeholder's
 /// reference span changed
-fn mutate_long(rng: &mut Rng, body: &[u8]) -> (Vec<u8>, &'static str) {
+pub(super) fn mutate_long(rng: &mut Rng, body: &[u8]) -> (Vec<u8>, &'static str) {
     let l = layout(body);
     let mut b = body.to_vec();
     match rng.below(3) {
@@ -520,7 +520,7 @@ fn default_body() -> Vec<u8> {
 }
 
 /// core + name + ops + packed seq + quals + data
-fn mk(refid: i32, pos: i32, mapq: u8, bin: u16, flags: u16, name: &[u8], ops: &[u32], l_seq: u32, seq: &[u8], qual: &[u8], data: &[u8]) -> Vec<u8> {
+pub(super) fn mk(refid: i32, pos: i32, mapq: u8, bin: u16, flags: u16, name: &[u8], ops: &[u32], l_seq: u32, seq: &[u8], qual: &[u8], data: &[u8]) -> Vec<u8> {
     let mut b = vec![];
     b.extend_from_slice(&refid.to_le_bytes());
     b.extend_from_slice(&pos.to_le_bytes());
@@ -543,7 +543,7 @@ fn mk(refid: i32, pos: i32, mapq: u8, bin: u16, flags: u16, name: &[u8], ops: &[
     b
 }
 
-fn corpus() -> Vec<(usize, Vec<u8>, &'static str)> {
+pub(super) fn corpus() -> Vec<(usize, Vec<u8>, &'static str)> {
     let m = |len: u32, k: u32| (len << 4) | k;
     let mut v: Vec<(usize, Vec<u8>, &'static str)> = vec![];
     v.push((0, default_body(), "corpus_default"));
